@@ -52,7 +52,7 @@ HASHSEEDS = ["0", "1", "2", "12345"]
 
 
 def budget(tier):
-    return int(os.environ.get("VERIF_BUDGET", 0)) or {"quick": 220, "thorough": 2400}[tier]
+    return int(os.environ.get("VERIF_BUDGET", 0)) or {"quick": 160, "thorough": 2400}[tier]
 
 
 # ---------------------------------------------------------------- generation (pure, no pharmpy import)
@@ -1200,7 +1200,7 @@ def run_case(case, drv):
                                         "what": "two == models whose compartments/flows were added in different order have different ModelHash (to_dict emits networkx insertion order)"})
                         else:
                             mon.append({"cls": "hash-differs-for-equal-models", "what": "two == models with the same dataset have different ModelHash (not explained by compartment order)"})
-                    # the repaired encoding of the model must not see the difference (run-time sanity of encode'_canonical)
+                    # the repaired encoding of the model must not see the difference (run-time sanity of encode_repaired_canonical)
                     if drv is not None:
                         c1, c2 = m.statements.ode_system, m2.statements.ode_system
                         a1 = drv.ask(["canon", w_graph(c1._g), ser(c1._t)])
